@@ -84,8 +84,14 @@ def r3_lookup(m):
     es = m.method(ks, "enter_scope")
     r.instances += 1
     txt = " ".join(A.text(s) for s in es.node.body[1:]) if es else ""
-    ok = es is not None and "parent=self._current_scope" in txt.replace(" ", "").replace("parent=self._current_scope", "parent=self._current_scope") \
-        and "self._current_scope.add_child(table)" in txt and "self._current_scope = table" in txt
+    # (the local holding the new table is found by what is done with it: it becomes the current scope)
+    tv = "table"
+    if es is not None:
+        for n_ in A.body_nodes(es.node):
+            if isinstance(n_, ast.Assign) and any(A.text(t) == "self._current_scope" for t in n_.targets) and isinstance(n_.value, ast.Name):
+                tv = n_.value.id
+    ok = es is not None and "parent=self._current_scope" in txt.replace(" ", "") \
+        and "self._current_scope.add_child(%s)" % tv in txt and "self._current_scope = %s" % tv in txt
     r.ob(ok, "SymbolTables.enter_scope nests the new table under the current scope and makes it current")
     if not ok:
         r.fail("enter_scope", "SymbolTables.enter_scope no longer creates the new table with parent=current scope, registers it as a child and makes it current", m.loc(es) if es else None)
@@ -136,14 +142,29 @@ def r3_lookup(m):
 class IntrinsicClient(F.Client):
     track = {"$looked", "$found", "result", "table"}
 
+    def __init__(self, fnode=None):
+        # the locals by what is bound to them: the scope (`= SYMBOL_TABLES.current_scope`) and the engine's result (`= CallBase.match(...)`)
+        self.tables = {"table", "SYMBOL_TABLES.current_scope"}
+        self.result = "result"
+        self.track = set(type(self).track)
+        if fnode is not None:
+            for n in A.body_nodes(fnode):
+                if isinstance(n, ast.Assign) and len(n.targets) == 1 and isinstance(n.targets[0], ast.Name):
+                    if A.text(n.value) == "SYMBOL_TABLES.current_scope":
+                        self.tables.add(n.targets[0].id)
+                        self.track.add(n.targets[0].id)
+                    if isinstance(n.value, ast.Call) and A.text(n.value.func).endswith("CallBase.match"):
+                        self.result = n.targets[0].id
+                        self.track.add(n.targets[0].id)
+
     def call_raises(self, call, st):
-        if isinstance(call.func, ast.Attribute) and call.func.attr == "lookup" and A.text(call.func.value) in ("table", "SYMBOL_TABLES.current_scope"):
+        if isinstance(call.func, ast.Attribute) and call.func.attr == "lookup" and A.text(call.func.value) in self.tables:
             miss = st.set("$looked", F.TRUE).set("$found", F.FALSE)
             return (("KeyError", miss), ("AttributeError", miss))
         return ()
 
     def call_effect(self, call, st):
-        if isinstance(call.func, ast.Attribute) and call.func.attr == "lookup" and A.text(call.func.value) in ("table", "SYMBOL_TABLES.current_scope"):
+        if isinstance(call.func, ast.Attribute) and call.func.attr == "lookup" and A.text(call.func.value) in self.tables:
             return (st.set("$looked", F.TRUE).set("$found", F.TRUE),)
         return (st,)
 
@@ -168,7 +189,8 @@ def r4_intrinsic(m):
             continue
         seen.add(id(f))
         r.instances += 1
-        fl = F.Flow(m, f, IntrinsicClient())
+        icl = IntrinsicClient(f.node)
+        fl = F.Flow(m, f, icl)
         out = fl.run(F.State({"$looked": F.FALSE, "$found": F.FALSE}))
         bad = None
         n = 0
@@ -187,12 +209,12 @@ def r4_intrinsic(m):
             bad = (f.node, "without consulting SYMBOL_TABLES.current_scope at all")
         # the name looked up is the name written in the source, not a name taken from the intrinsic tables
         for c in A.calls(f.node):
-            if isinstance(c.func, ast.Attribute) and c.func.attr == "lookup" and A.text(c.func.value) in ("table", "SYMBOL_TABLES.current_scope") and c.args:
+            if isinstance(c.func, ast.Attribute) and c.func.attr == "lookup" and A.text(c.func.value) in icl.tables and c.args:
                 arg = c.args[0]
                 defs = [n.value for n in A.body_nodes(f.node) if isinstance(n, ast.Assign) and isinstance(arg, ast.Name)
                         and any(isinstance(t, ast.Name) and t.id == arg.id for t in n.targets)] if isinstance(arg, ast.Name) else [arg]
                 for dv in defs:
-                    if any(isinstance(x, ast.Subscript) and "function_names" in A.text(x.value) for x in ast.walk(dv)) or "result" not in A.names_in(dv):
+                    if any(isinstance(x, ast.Subscript) and "function_names" in A.text(x.value) for x in ast.walk(dv)) or icl.result not in A.names_in(dv):
                         bad = (c, "after looking up `%s` (= `%s`), which is not the name written in the source" % (A.text(arg), A.text(dv)[:50]))
         r.ob(bad is None and n > 0, "%s: %d matching return states, all after an unsuccessful scope lookup" % (f.qualname, n))
         if n == 0 and bad is None:
